@@ -423,10 +423,18 @@ def run_cases(ctx, driver, mod, cases):
     kept = []
     cur = os.path.join(REPLAY_DIR, f".current-{ctx.prop}.json")
     os.makedirs(REPLAY_DIR, exist_ok=True)
+    from harness import warm
+    import zlib
     for c in cases:
         try:
             with open(cur, "w") as f:     # so that an interpreter crash still has its failing input
                 json.dump(c, f, default=repr)
+            # every third case (a function of the case alone, so a replay does the same) runs on objects
+            # "with a history": see harness/warm.py
+            warm.ENABLED = (zlib.crc32(json.dumps(c, sort_keys=True, default=repr).encode()) % 3 == 0) \
+                and os.environ.get("VERIF_NO_WARM") != "1"
+            if warm.ENABLED:
+                ctx.count("warmed-cases")
             o = mod.impl(c)
         except Exception as e:  # the observation itself blew up on the real code: a concrete failing input
             import traceback
@@ -434,6 +442,8 @@ def run_cases(ctx, driver, mod, cases):
                           traceback.format_exc()[-1500:])
             ctx.evaluations += 1
             continue
+        finally:
+            warm.ENABLED = False
         kept.append(c)
         r = mod.model_requests(c, o) if driver is not None else []
         spans.append((len(reqs), len(r)))
